@@ -57,6 +57,8 @@ type c19Worker struct {
 	probeNo int64
 	run     *ev.Run
 	stats   *c19Stats
+	// forceAttrib: the attribution probes follow every sequence, not one in four
+	forceAttrib bool
 }
 
 type c19Stats struct {
@@ -194,6 +196,10 @@ func (w *c19Worker) attributionProbe(x string, trace []string) bool {
 				}
 			}
 		}
+		if ok && !isMember && len(m) >= 2 && len(got) == 3 && got[0] == got[1] && got[1] == got[2] {
+			// three consecutive requests on one member of several: they were pinned, not rotated
+			ok = false
+		}
 		if ok {
 			return true
 		}
@@ -271,7 +277,7 @@ func (w *c19Worker) runSequence(seq []c19Outcome, probeEvery bool, rnd *rand.Ran
 			}
 		}
 	}
-	if ok && rnd != nil && rnd.Intn(4) == 0 {
+	if ok && rnd != nil && (w.forceAttrib || rnd.Intn(4) == 0) {
 		// attribution probes: a member, a removed address, a never-member
 		m := w.members()
 		if len(m) >= 2 {
@@ -317,19 +323,25 @@ func newC19Worker(id int, scheme string, twoNames bool, run *ev.Run, stats *c19S
 		w.port = 7001
 	}
 	for k := 1; k <= 5; k++ {
-		pk := w.port
+		// the second host name of a rotation uses another port; address 3 is in the pools of
+		// both names (one machine, two services)
+		ports := []int{w.port}
 		if twoNames && k >= 4 {
-			pk = w.port + 2 // the second host name of a rotation uses another port
+			ports = []int{w.port + 2}
+		} else if twoNames && k == 3 {
+			ports = []int{w.port, w.port + 2}
 		}
-		a := fmt.Sprintf("127.4.%d.%d:%d", id, k, pk)
-		var err error
-		if scheme == "udp" {
-			err = w.sinks.listenUDP(a)
-		} else {
-			err = w.sinks.listenTCP(a)
-		}
-		if err != nil {
-			return nil, err
+		for _, pk := range ports {
+			a := fmt.Sprintf("127.4.%d.%d:%d", id, k, pk)
+			var err error
+			if scheme == "udp" {
+				err = w.sinks.listenUDP(a)
+			} else {
+				err = w.sinks.listenTCP(a)
+			}
+			if err != nil {
+				return nil, err
+			}
 		}
 	}
 	ip := func(k int) string { return fmt.Sprintf("127.4.%d.%d", id, k) }
@@ -337,7 +349,7 @@ func newC19Worker(id int, scheme string, twoNames bool, run *ev.Run, stats *c19S
 	if twoNames {
 		w.names = []*c19Name{
 			{name: fmt.Sprintf("h%da.verif.test", id), port: w.port, pool: []string{ip(1), ip(2), ip(3)}, ever: map[string]bool{}},
-			{name: fmt.Sprintf("h%db.verif.test", id), port: w.port + 2, pool: []string{ip(4), ip(5)}, ever: map[string]bool{}}}
+			{name: fmt.Sprintf("h%db.verif.test", id), port: w.port + 2, pool: []string{ip(3), ip(4), ip(5)}, ever: map[string]bool{}}}
 	} else {
 		w.names = []*c19Name{{name: fmt.Sprintf("h%da.verif.test", id), port: w.port, pool: []string{ip(1), ip(2), ip(3), ip(4), ip(5)}, ever: map[string]bool{}}}
 	}
@@ -448,6 +460,25 @@ func TestVerifC19(t *testing.T) {
 					return
 				}
 				defer w2.sinks.close()
+			}
+			if w2 != w {
+				// one address in the pools of both names (another port each): when one name drops it,
+				// only that name's backend goes - what still answers from the address under the
+				// other port stays recognised, what answers from the dropped port does not
+				p0, p1 := w2.names[0].pool, w2.names[1].pool
+				shared := p0[2]
+				w2.forceAttrib = true
+				for _, seq := range [][]c19Outcome{
+					{{0, true, []string{shared, p0[0]}}, {1, true, []string{shared, p1[1]}}, {0, true, []string{p0[0]}}},
+					{{0, true, []string{shared, p0[1]}}, {1, true, []string{shared, p1[2]}}, {1, true, []string{p1[2]}}},
+					{{1, true, []string{shared}}, {0, true, []string{shared, p0[0], p0[1]}}, {0, true, []string{p0[1], p0[0]}}, {0, false, nil}},
+					{{0, true, []string{shared}}, {1, true, []string{shared, p1[1]}}, {1, true, []string{}}},
+				} {
+					w2.runSequence(seq, true, rnd)
+					atomic.AddInt64(&seqCount, 1)
+					run.Eval(fmt.Sprintf("shared-address-w%d-%v", wi, seq))
+				}
+				w2.forceAttrib = false
 			}
 			for r := wi; r < nrand; r += workers {
 				if run.Violations() > 3 {
